@@ -249,7 +249,17 @@ class GirAutomata:
         t = self.g.terms.get(fn)
         if t is None:
             raise Incomplete(f'no model of `{fn}`')
-        return self.build(nfa, t, {'params': {}, 'consts': consts or {}, 'stack': (fn,), 'fn': fn})
+        return self.scoped(nfa, t, {'params': {}, 'consts': consts or {}, 'stack': (fn,), 'fn': fn})
+
+    def scoped(self, nfa, t, env):
+        """build a function / closure body: `return Ok(..)` jumps to its end, `return Err(..)` is a dead end"""
+        end = nfa.new()
+        env2 = dict(env)
+        env2['fn_end'] = end
+        env2['break_to'] = []
+        s, e = self.build(nfa, t, env2)
+        nfa.add(e, None, end)
+        return s, end
 
     def _tok(self, nfa, t, env):
         lo, hi = t['min'], t['max']
@@ -294,6 +304,13 @@ class GirAutomata:
         if op == 'not':
             self.approx.append((env['fn'], 'not', t.get('l')))
             return nfa.f_eps()
+        if op == 'empty' and t.get('ret'):
+            s0 = nfa.new()
+            if t['ret'] == 'ok':
+                if env.get('fn_end') is None:
+                    raise Incomplete(f'`{env["fn"]}`: return outside a modelled function')
+                nfa.add(s0, None, env['fn_end'])
+            return s0, nfa.new()
         if op == 'empty' and t.get('brk'):
             if not env.get('break_to'):
                 raise Incomplete(f'`{env["fn"]}`: break outside a modelled loop')
@@ -364,6 +381,8 @@ class GirAutomata:
                             return self._tok(nfa, inner, env)
             if t['kind'] in ('verify', 'try_map', 'verify_map', 'parse_to'):
                 self.approx.append((env['fn'], t['kind'], t.get('l')))
+            if t['kind'] == 'scope':
+                return self.scoped(nfa, t['p'], env)
             return self.build(nfa, t['p'], env)
         if op == 'checkrec':
             return self.build(nfa, t['p'], env)
@@ -407,7 +426,7 @@ class GirAutomata:
                         params[nm] = (a, env)
             consts = self.g.generic_env(t) if t.get('gargs') else {}
             env2 = {'params': params, 'consts': consts, 'stack': env['stack'] + (fn,), 'fn': fn}
-            return self.build(nfa, ft, env2)
+            return self.scoped(nfa, ft, env2)
         if op == 'param':
             hit = env['params'].get(t['name'])
             if hit is None:
